@@ -99,7 +99,7 @@ func c01Random(tier string) int {
 	if tier == "thorough" {
 		return 50000
 	}
-	return 2000
+	return 10000
 }
 
 func init() {
